@@ -270,6 +270,8 @@ def _lte_metamodel(E, idmode=None):
 
 
 LTE_FORMATS = ['xmi', 'xmi', 'xmi-uuid', 'json', 'json-uuid']
+LTE_ID_SHAPES = ['k{n}', '{n}', 'id.{n}_x', 'lib/shelf-{n}/b{n}', 'a/{n}', '{n}/2', '{n}/', 'k:{n}', 'a@{n}', 'p-q_{n}',
+                 'x..{n}', '@{n}', '%{n}%', '{n}.0', 'a/@b.{n}', 'http://x/{n}', '..{n}', '{n}?q', "{n}'s"]
 
 
 def load_edit_scenarios(ctx, out):
@@ -349,7 +351,9 @@ def load_edit_scenarios(ctx, out):
                     pool[rng.randrange(nobj) if rng.random() < 0.5 else 0] = 0       # the default value of EInt, set
                 for i, o in enumerate(objs):
                     if rng.random() < (0.85 if i < nroots else 0.65):
-                        o.key = pool[i] if idmode == 'int' else rng.choice([f'k{pool[i]}', str(pool[i]), f'id.{pool[i]}_x'])
+                        # string ids of every shape _id_fragment accepts (anything not empty, without blank or '#',
+                        # not STARTING with '/'): inner and trailing '/', dots, '@', '%', ':' ... are legal in an id
+                        o.key = pool[i] if idmode == 'int' else rng.choice(LTE_ID_SHAPES).format(n=pool[i])
                         idtexts[o.name] = str(o.key)
                         cov['roots_with_id'] += i < nroots
                         cov['int_ids_equal_to_0'] += idmode == 'int' and o.key == 0
@@ -1231,7 +1235,8 @@ def _reach_from(o):
 # object, against run_idfrag's tokens.  Which id-attribute texts can serve as a reference is decided here by the rule
 # of Resource._id_fragment (set, non-empty, no blank, no leading '/', no '#'): the model takes it as input.
 
-IDF_USABLE = ['k1', 'k2', 'k3', 'k4', 'k5', 'k6', '7', 'id.8_x']
+IDF_USABLE = ['k1', 'k2', 'k3', 'k4', 'k5', 'k6', '7', 'id.8_x', 'a/b', 'lib/shelf-1/b2', 'x.y', 'k:1', 'a@b', '1/2',
+              'p-q_r', 'a/', '..', '@a', '%a%', 'a.0', 'a/@b.1', 'http://x/y']
 IDF_UNUSABLE = ['', 'a b', '/x', 'p#q']
 
 
